@@ -466,6 +466,10 @@ def _norm1(e, ctx):
                 return m
         return None
     if k == 'call':
+        for rw_ in getattr(ctx, 'rewrites', ()):
+            r_ = rw_(e)
+            if r_ is not None and r_ != e:
+                return r_
         fn, args, kwargs = e[1], e[2], e[3]
         if any(a[0] == 'star' and a[1][0] in ('tuple', 'list') for a in args):
             flat = []
